@@ -338,6 +338,18 @@ class H:
         rec['item'] = item
         rec['c0_seq'] = self.log.seq()
         rec['c0'] = self.main.elapsed_time()
+        tcrel = how == 'rel' and rec['ckind'] == 'TempoClock' and not decoy
+        if tcrel:
+            # relative scheduling on a tempo clock is in beats: the task is due at
+            # the clock's beat at the caller's time plus the delta (read before and
+            # after the call: one value inside a task, an interval from a thread)
+            # (a plain thread's time is the physical present; an unlocked
+            # `clock.beats` there could see a routine that a clock thread runs)
+            rd = clock.elapsed_beats if src[0] == 'thread' else (lambda: clock.beats)
+            try:
+                rec['b0'] = rd()
+            except Exception:
+                tcrel = False
         try:
             if how == 'rel' and kind == 'defer':
                 self.clk.defer(item, val, clock)
@@ -352,6 +364,11 @@ class H:
         except Exception as e:
             rec['error'] = repr(e)
         finally:
+            if tcrel:
+                try:
+                    rec['b1'] = rd()
+                except Exception:
+                    rec.pop('b0', None)
             rec['c1'] = self.main.elapsed_time()
             rec['c1_seq'] = self.log.seq()
         return rec
@@ -648,8 +665,14 @@ def _check_sched_time(h, rec, S, logical, acc):
         if how == 'abs':
             if abs(S - val) > 1e-7 * max(1.0, abs(val)):
                 bad = ('abs', val, S)
-        # relative beats on tempo clocks: tempo map may change between the call
-        # and the wake-up; logical seconds cannot be recomputed here (C05/C12).
+        elif how == 'rel' and 'b0' in rec and 'b1' in rec and not rec.get('moves'):
+            # relative: beats at the caller's time plus the delta (later tempo
+            # changes move the second, not the beat)
+            lo, hi = rec['b0'] + val, rec['b1'] + val
+            tol = 1e-7 * max(1.0, abs(hi))
+            acc.count('tempo_relative_sched_beats_checked')
+            if not (lo - tol <= S <= hi + tol):
+                bad = ('rel-beats-from-' + src[0], [lo, hi], S)
     acc.count('sched_time_checked')
     if bad:
         acc.violation(f'C08/sched-time/{ck}/{bad[0]}',
